@@ -67,7 +67,7 @@ func Balloon.RebuildCache
   modifies everything, rebuildSeenLoads, openReaders, tilesRead, readerExhausted, cachePuts
   ensures C09/hyper-cache-rebuilt: rebuildSeenLoads == snapshotLoads
   ensures C08,C09/reads-to-the-end: readerExhausted
-  ensures C08/reader-released: openReaders == old(openReaders)
+  ensures C08,C09/reader-released: openReaders == old(openReaders)
 
 // ---- C11: queries on arbitrary request data never crash the node ---------------------
 // (the explicit "tampered" panic needs a store whose hyper tree names a version
